@@ -74,6 +74,12 @@ def check(pm: ProgramModel, ctx: Ctx) -> None:
         "negated-literal": [n_(o_("NOT"), n_("B"))],
         "literal": [n_("B")],
         "requires-from-core": [n_(o_("REQUIRES"), n_("M"), n_("B"))],
+        # an optional feature that requires / implies a core one, in every spelling of a requires: says nothing about it
+        "requires-to-core": [n_(o_("REQUIRES"), n_("B"), n_("M"))],
+        "implies-to-core": [n_(o_("IMPLIES"), n_("B"), n_("M"))],
+        "core-or-not-optional": [n_(o_("OR"), n_("M"), n_(o_("NOT"), n_("B")))],
+        "not-optional-or-core": [n_(o_("OR"), n_(o_("NOT"), n_("B")), n_("M"))],
+        "optional-requires-optional": [n_(o_("OR"), n_("C"), n_(o_("NOT"), n_("B"))), n_(o_("REQUIRES"), n_("G1"), n_("G2"))],
         "excludes-core": [n_(o_("EXCLUDES"), n_("M"), n_("C"))],
         "or-of-optionals": [n_(o_("OR"), n_("B"), n_("C"))],
         "equivalence": [n_(o_("EQUIVALENCE"), n_("B"), n_("C"))],
